@@ -38,6 +38,21 @@ def run(chk: common.Check, tier: str):
     gs = list(grammars())
     pairs = rm.krun(chk, "C11", [g for g, _ in gs], lambda t: INPUTS, configs=("q1",))
     ctx_of = dict(gs)
+    # "in EVERY generated parser": a second parser generated from the same grammar object has the same tables and behaviour
+    first = {t: rj for t, rj in pairs}
+    sub = [g for g, c in gs if c not in ("literal", "kind")][::3]
+    again = rm.run_traced([{"grammar": t, "inputs": INPUTS, "configs": ["q1"], "regenerate": True} for t in sub])
+    for t, rj2 in zip(sub, again):
+        rj1 = first.get(t)
+        chk.count()
+        if rj1 is None or "results" not in rj2:
+            continue
+        k1 = (rj1["keywords"], rj1["soft_keywords"], [o["runs"]["q1"]["kind"] for o in rj1["results"]])
+        k2 = (rj2["keywords"], rj2["soft_keywords"], [o["runs"]["q1"]["kind"] for o in rj2["results"]])
+        if k1 != k2:
+            chk.violation(f"a parser generated a second time from the same grammar object differs: keyword tables "
+                          f"{k1[0]}/{k1[1]} -> {k2[0]}/{k2[1]}, outcomes {k1[2]} -> {k2[2]}",
+                          {"grammar": t, "inputs": INPUTS, "how": "PythonParserGenerator(g, out).generate() twice on one Grammar object"}, True)
     kfs = common.known_findings("C11")
     known_hit = set()
     for t, rj in pairs:
